@@ -63,7 +63,7 @@ struct C19World: World {
       std::vector<Obj> pool(8);
       int idx = 0;
       auto seams = [&](const char* after) {
-        if (!as.errors.empty()) ctx.fail(fp(p, "allocator-misuse"), as.errors[0] + std::string(" after ") + after);
+        if (!as.errors.empty()) ctx.fail(fp(p, as.errors[0].rfind("deallocate through an allocator of another arena", 0) == 0 ? "released-through-unequal-allocator-instance" : "allocator-misuse"), as.errors[0] + std::string(" after ") + after);
         if (!item_state().errors.empty()) ctx.fail(fp(p, "item-lifecycle"), item_state().errors[0] + std::string(" after ") + after);
         if (as.arena0_allocs) ctx.fail(fp(p, "allocation-through-default-constructed-allocator"), std::to_string(as.arena0_allocs) + " allocation(s) after " + after);
         if (as.default_constructed) { ctx.probe("allocator_default_constructed_without_allocating", as.default_constructed); as.default_constructed = 0; }
@@ -75,8 +75,8 @@ struct C19World: World {
         // blocks taken from ::operator new inside lifecycle calls are tracked; the observation strings the harness keeps are taken outside the scope
         #define TRACKED(stmt) do { TrackGlobalNew tg_; stmt; } while (0)
         switch (s.kind) {
-          case L_NEW: ARENA = 1 + static_cast<int>(static_cast<size_t>(s.a) % pool.size() % 2);   // odd pool slots get an allocator instance that compares unequal to the even slots' one
-            TRACKED(a.sk.reset(f->make(fcfg))); ARENA = 1; a.moved_from = false; a.expect = a.sk->obs(false); ctx.probe("object_in_second_arena", static_cast<u64>(static_cast<size_t>(s.a) % pool.size() % 2)); break;
+          case L_NEW: fam::ARENA = (p.run_seed % 4 == 0) ? 1 + static_cast<int>(static_cast<size_t>(s.a) % pool.size() % 2) : 1;   // odd pool slots get an allocator instance that compares unequal to the even slots' one
+            TRACKED(a.sk.reset(f->make(fcfg))); fam::ARENA = 1; a.moved_from = false; a.expect = a.sk->obs(false); if (p.run_seed % 4 == 0) ctx.probe("object_in_second_arena", static_cast<u64>(static_cast<size_t>(s.a) % pool.size() % 2)); break;
           case L_FEED: if (a_ok) { TRACKED(a.sk->feed(s.b, s.c / 64, s.c % 64)); a.expect = a.sk->obs(false); } break;
           case L_COPY: if (b_ok && &a != &b) { TRACKED(a.sk.reset(b.sk->clone())); a.moved_from = false; a.expect = a.sk->obs(false);
               ctx.require(a.expect == b.expect, fp(p, "copy-differs-from-source").c_str(), a.expect.substr(0, 200) + " vs " + b.expect.substr(0, 200)); ctx.nontrivial = true; } break;
